@@ -258,7 +258,8 @@ def from_Bar(bar, width=40, tuning=None, collapse=True):
     for entry in bar.bar:
         (beat, duration, notes) = entry
         fingering = tuning.find_fingering(notes)
-        if fingering != [] or notes is None:
+        # (a container that holds no notes is a rest, like None)
+        if fingering != [] or not notes:
 
             # Do an attribute check
             f = []
@@ -288,7 +289,7 @@ def from_Bar(bar, width=40, tuning=None, collapse=True):
                 f = fres[0]
             else:
                 # Use default fingering if attributes don't make sense
-                if notes is None:
+                if not notes:
                     f = []
                     maxlen = 1
                 else:
